@@ -202,6 +202,21 @@ def remove (s : S) (x : Int) : Except Err S :=
 
 def update (s : S) (other : List Int) : S := other.foldl (fun acc x => add x acc) s
 
+/-- sort key of `min(data, key=lambda x: (type(x).__name__, repr(x)))` on ints: the type name is the
+same for all elements, so the key is `repr(x)`, the decimal string, compared as Python compares
+strings: lexicographically by code point, a proper prefix first (`'-1' < '-2' < '0' < '10' < '100' < '2'`).
+Represented as the list of code points (`'-'` = 45, digits 48..57). -/
+def reprKey (i : Int) : List Nat :=
+  match i with
+  | .ofNat n => (Nat.toDigits 10 n).map Char.toNat
+  | .negSucc n => 45 :: (Nat.toDigits 10 (n + 1)).map Char.toNat
+
+/-- `min(s, key=reprKey)`: the first element with the smallest key (keys of distinct ints differ, so
+the iteration order does not matter); 0 on the empty set (never used: callers test emptiness) -/
+def minRepr : S → Int
+  | [] => 0
+  | x :: xs => xs.foldl (fun m y => if reprKey y < reprKey m then y else m) x
+
 /-- `s.pop()` relative to a choice function; a choice outside the set falls back to the head so the
 function is total (`KeyError` on the empty set). -/
 def pop (choose : S → Int) (s : S) : Except Err (Int × S) :=
